@@ -112,6 +112,13 @@ def run(chk):
                 want_src = "GenericParam::Lifetime" if direction(k) == "From" else "GenericArgument::Lifetime"
                 bound = str(pushes[0][2]) if pushes else ""
                 ok = len(pushes) == 1 and want_src in bound and r == "Some(«&'o2o»)" and want_src in src
+                # the list repeated after `'o2o:` must be the very list whose emptiness was tested (an empty bound list after the colon is
+                # accepted by syn 2 and rejected - parse_quote! panics - by syn 1)
+                mrep = re.search(r"rep:(.*?)/\+", bound)
+                tested = re.sub(r"\.is_empty\(\)$", "", src)
+                if ok and mrep and tested and mrep.group(1).strip() != tested.strip():
+                    chk.bad("R4", key + "/bound-list", EXPAND, fi.line, "the lifetime list interpolated after `'o2o:` is not the list tested for emptiness: it can be empty (`'o2o: `), which syn 2 parses and syn 1 rejects with a panic",
+                            expected=tested[-80:], found=mrep.group(1)[-80:])
                 exp = f"'o2o: <{'own' if direction(k) == 'From' else 'counterpart'} lifetimes>, &'o2o"
             else:
                 ok = not pushes and r == "Some(«&»)"
@@ -169,3 +176,19 @@ def run(chk):
     chk.guard("R5", r5)
     from .c05 import import_lookup_contracts
     chk.guard("R6", lambda: import_lookup_contracts(chk, "R6", ["where_attr"], with_chain=False))
+
+    def typepath_contract():
+        from ..core import Check
+        from . import c04
+        sub = Check("C04", chk.repo, chk.tier)
+        sub.guard("R8", lambda: c04.r8_typepath_ctor(sub))
+        chk.rule("R7", "the lifetimes / generic arguments an impl header declares are those of TypePath.generics: the split of the counterpart path (C04.R8)", floor=2)
+        for r_, w_ in sub.inconclusive:
+            chk.inconc("R7", w_)
+        for i in sub.instances:
+            if i.rule == "R8":
+                if i.ok:
+                    chk.ok("R7", "typepath:" + i.key, i.file, i.line)
+                else:
+                    chk.bad("R7", "typepath:" + i.key, i.file, i.line, i.what, i.expected, i.found)
+    chk.guard("R7", typepath_contract)
